@@ -332,6 +332,11 @@ func vCodecLine(rng *rand.Rand, cfg *vC17Cfg, n int, fill string, mk int) map[st
 
 	h1 := vNew(K1)
 	s, sk := vSealOnce(h1, v)
+	// removing the last byte of the wrapped key is the same byte string as removing the first nonce
+	// byte when the two are equal: take a seal where they differ, so that every case has one class
+	for i := 0; i < 64 && sk == "Ok" && len(s) > vWK+1 && s[vWK] == s[vWK+1]; i++ {
+		s, sk = vSealOnce(h1, v)
+	}
 	seal := vSeal{K: sk}
 	if sk != "Ok" {
 		return map[string]interface{}{"a": "Codec", "n": n, "fill": fill, "mk": mk, "seal": seal, "recs": []vRec{}, "partial": true}
@@ -461,7 +466,12 @@ func vCodecLine(rng *rand.Rand, cfg *vC17Cfg, n int, fill string, mk int) map[st
 		return func(d []byte, pos int) []byte {
 			out := make([]byte, 0, len(d)+1)
 			out = append(out, d[:pos]...)
-			out = append(out, b)
+			if pos < len(d) && d[pos] == b && pos > 0 {
+				// inserting a copy of the byte it displaces equals inserting one position later
+				out = append(out, b^0x5a)
+			} else {
+				out = append(out, b)
+			}
 			return append(out, d[pos:]...)
 		}
 	}
